@@ -725,6 +725,12 @@ package tabular
 //@   call invokePropertyCallbacks#9 before assert [table-post-cell] arg0 === t.tableCellCallbacks && arg1 == CB_AT_RENDER_POSTCELL && arg2 === mkiface(type[*Cell], box(ptr)) && stage[ptr] < old(stage)[ptr] + 8 @C13
 //@   call invokePropertyCallbacks#9 after ghost stage[ptr] = old(stage)[ptr] + 8
 //@   call invokePropertyCallbacks#9 after ghost fires[ptr] = fires[ptr] + 1
+//@   call invokePropertyCallbacks#4 before assert [cut-count-4] cbErrN >= old(cbErrN) && len(t.ErrorContainer.errors_) == old(len(t.ErrorContainer.errors_)) + (cbErrN - old(cbErrN))
+//@   call invokePropertyCallbacks#4 before assert [cut-order-4] forall m int :: {cbErrLog[m]} old(cbErrN) <= m && m < cbErrN ==> t.ErrorContainer.errors_[old(len(t.ErrorContainer.errors_)) + (m - old(cbErrN))] == cbErrLog[m]
+//@   call invokePropertyCallbacks#7 before assert [cut-count-7] cbErrN >= old(cbErrN) && len(t.ErrorContainer.errors_) == old(len(t.ErrorContainer.errors_)) + (cbErrN - old(cbErrN))
+//@   call invokePropertyCallbacks#7 before assert [cut-order-7] forall m int :: {cbErrLog[m]} old(cbErrN) <= m && m < cbErrN ==> t.ErrorContainer.errors_[old(len(t.ErrorContainer.errors_)) + (m - old(cbErrN))] == cbErrLog[m]
+//@   call invokePropertyCallbacks#9 before assert [cut-count-9] cbErrN >= old(cbErrN) && len(t.ErrorContainer.errors_) == old(len(t.ErrorContainer.errors_)) + (cbErrN - old(cbErrN))
+//@   call invokePropertyCallbacks#9 before assert [cut-order-9] forall m int :: {cbErrLog[m]} old(cbErrN) <= m && m < cbErrN ==> t.ErrorContainer.errors_[old(len(t.ErrorContainer.errors_)) + (m - old(cbErrN))] == cbErrLog[m]
 //@   call invokePropertyCallbacks#10 before assert [row-post] arg0 === row.rowItselfCallbacks && arg1 == CB_AT_RENDER_POSTCELL && arg2 === mkiface(type[*Row], box(row)) && stageR[row] == old(stageR)[row] + 1 @C13
 //@   call invokePropertyCallbacks#10 after ghost stageR[row] = old(stageR)[row] + 2
 //@   call invokePropertyCallbacks#10 after ghost firesR[row] = firesR[row] + 1
